@@ -38,7 +38,7 @@ BUDGET = {"quick": (480, 110), "thorough": (16000, 1500)}
 FAULTS = ["tcp_cut", "tcp_coalesce", "connect_refused", "peer_fin", "rst", "short_send", "srv_bad_serverhello",
           "srv_close_after_hello", "srv_frames_behind_hello", "client_disconnect_in_handshake"]
 PROBES = ["variant_XX", "variant_IK", "variant_XXfallback", "config_rewritten", "frame_queued_while_handshake",
-          "stale_worker_at_next_attempt", "login_failure_reported", "big_stanza", "reconnect_after_cut", "worker_died"]
+          "stale_worker_at_next_attempt", "login_failure_reported", "big_stanza", "reconnect_after_cut", "worker_died", "disconnect_request_raised"]
 SHRINK = ["attempts"]
 STATE_MEASURE = "abstract state = (attempt no, server stage, noise protocol state, #blocked handshake workers, queue length bucket)"
 
@@ -215,7 +215,8 @@ def simplify(case):
 
 
 # ------------------------------------------------------------------------------------------ world
-SUCCESS = RC.Node("success", {"t": "1", "props": "1", "location": "atn", "creation": "1"})
+def success_node(att_no):
+    return RC.Node("success", {"t": str(att_no), "props": "1", "location": "atn", "creation": "1"})
 
 
 class Session(object):
@@ -302,7 +303,7 @@ class Session(object):
             w.probe("variant_" + r.variant)
             self._check_login()
             early = self.att.get("early", 0)
-            self.send_node(SUCCESS)
+            self.send_node(success_node(self.no))
             k = 0
             while self.s2c_queue and k < early:
                 self.send_node(self.s2c_queue.pop(0))
@@ -407,8 +408,12 @@ class W(wire.World):
         self.top_events = []      # (attempt no, event name)
         self.app_sent = {}        # attempt no -> [Node] submitted without exception
         self.app_errors = []
-        self.failures = {}        # attempt no -> failure stanza count
-        self.hs_failed = {}
+        self.failure_count = 0
+        self.hs_failed_count = 0
+        self.owner = {}
+        for ai, a in enumerate(case["attempts"]):
+            for d in a["s2c"] + a["c2s"]:
+                self.owner[d["i"]] = ai
         self.disconnected = 0
         self.connected = 0
         self.done = False
@@ -468,13 +473,22 @@ class W(wire.World):
 
     # ---------------------------------------------------------------- observation points
     def on_top_receive(self, node):
-        a = self.attempt_no()
         n = RC.from_ptn(node)
-        self.k.note("top rx", a, n.tag, n["id"])
+        self.k.note("top rx", n.tag, n["id"] or n["t"])
         if n.tag == "failure":
-            self.failures[a] = self.failures.get(a, 0) + 1
+            self.failure_count += 1
             return
+        a = self.owner_of(n)
         self.top_rx.setdefault(a, []).append(n)
+
+    def owner_of(self, n):
+        """The attempt a stanza belongs to, from its unique id (late deliveries stay attributable)."""
+        if n.tag == "success" and n["t"] is not None and n["t"].isdigit():
+            return int(n["t"])
+        i = n["id"]
+        if i is not None and i.startswith("u") and i[1:].isdigit():
+            return self.owner.get(int(i[1:]), -1)
+        return -1
 
     def on_top_event(self, layer, ev):
         S = _S
@@ -484,7 +498,7 @@ class W(wire.World):
         self.top_events.append((a, short))
         self.k.note("top ev", a, short)
         if name == S["YowNoiseLayer"].EVENT_HANDSHAKE_FAILED:
-            self.hs_failed[a] = self.hs_failed.get(a, 0) + 1
+            self.hs_failed_count += 1
         elif name == S["YowNetworkLayer"].EVENT_STATE_CONNECTED:
             self.connected += 1
         elif name == S["YowNetworkLayer"].EVENT_STATE_DISCONNECTED:
@@ -622,7 +636,12 @@ class W(wire.World):
     def _disconnect(self):
         S = _S
         self.k.note("app: disconnect request")
-        self.stack.broadcastEvent(S["YowLayerEvent"](S["YowNetworkLayer"].EVENT_STATE_DISCONNECT))
+        try:
+            self.stack.broadcastEvent(S["YowLayerEvent"](S["YowNetworkLayer"].EVENT_STATE_DISCONNECT))
+        except Exception as e:  # noqa
+            # a disconnect request that raises is C16's business; C04 judges what follows
+            self.probe("disconnect_request_raised")
+            self.k.note("app: disconnect raised", type(e).__name__)
 
     def _send_all(self, a, att, over, cut):
         k = self.k
@@ -671,18 +690,23 @@ class W(wire.World):
                 self.violate("C04/c2s/%s" % bad[0], "attempt %d: %s" % (a, bad[1]))
             elif full and a == natt - 1 and len(dec) != len(subm) and not self.violations:
                 self.violate("C04/c2s/missing", "attempt %d: server decoded %d of %d stanzas" % (a, len(dec), len(subm)))
-            if att.get("corrupt") and s is not None and s.hello_seen:
-                if not self.failures.get(a):
-                    self.violate("C04/failure/not-reported", "attempt %d: ServerHello failed authentication but no "
-                                 "failure stanza reached the top (handshake_failed events: %s)" % (a, self.hs_failed.get(a, 0)))
-                elif not self.hs_failed.get(a):
-                    self.violate("C04/failure/no-event", "attempt %d: failure stanza without EVENT_HANDSHAKE_FAILED" % a)
-                else:
-                    self.probe("login_failure_reported")
-            elif self.failures.get(a) and not att.get("corrupt"):
-                self.violate("C04/failure/spurious", "attempt %d (cut=%s, variant asked %s): a login failure was reported "
-                             "although the server's reply was authentic or absent; errors=%s"
-                             % (a, att["cut"], s.r.variant if s else None, [(n, repr(e)) for (n, e, tb) in self.k.errors][:2]))
+        if -1 in self.top_rx:
+            self.violate("C04/s2c/extra", "the top received stanzas nobody sent: %s" % [n.short(1) for n in self.top_rx[-1][:3]])
+        expected_failures = sum(1 for a, att in enumerate(self.attempts) if att.get("corrupt") and a < len(self.sessions)
+                                and self.sessions[a] is not None and self.sessions[a].hello_seen)
+        if self.failure_count < expected_failures:
+            self.violate("C04/failure/not-reported", "%d ServerHello replies failed authentication but only %d failure "
+                         "stanzas reached the top (handshake_failed events: %d)"
+                         % (expected_failures, self.failure_count, self.hs_failed_count))
+        elif self.failure_count > expected_failures:
+            self.violate("C04/failure/spurious", "%d login failures were reported, only %d server replies failed "
+                         "authentication; cuts=%s errors=%s" % (self.failure_count, expected_failures,
+                         [a["cut"] for a in self.attempts], [(n, repr(e)) for (n, e, tb) in self.k.errors][:2]))
+        elif self.hs_failed_count != expected_failures:
+            self.violate("C04/failure/event-count", "%d failure stanzas but %d handshake-failed events"
+                         % (self.failure_count, self.hs_failed_count))
+        elif expected_failures:
+            self.probe("login_failure_reported", expected_failures)
         # (b) stored server key
         reached = any((s is not None and (s.decoded or any(True for _ in self.top_rx.get(i, []))))
                       for i, s in enumerate(self.sessions))
